@@ -74,7 +74,7 @@ fn extreme_values() -> Vec<N> {
 pub fn fq12_alpha(tier: Tier, seed: u64) -> Vec<F12> {
     let p = q();
     let mut v: Vec<F12> = vec![F12::zero(), F12::one()];
-    let gens = generic(p, seed, 0xf12, 64);
+    let gens = generic(p, seed, 0xf12, tier.pick(64, 2048));
     let mut gi = 0;
     let mut g = || {
         gi += 1;
@@ -107,7 +107,7 @@ pub fn fq12_alpha(tier: Tier, seed: u64) -> Vec<F12> {
     let c = consts();
     v.push(refmodel::pairing(&c.g1, &c.g2));
     v.push(refmodel::miller(&c.g1, &c.g2));
-    for _ in 0..tier.pick(4, 24) {
+    for _ in 0..tier.pick(4, 48) {
         v.push(gen12(&mut g));
     }
     {
@@ -177,7 +177,7 @@ pub fn fq12_alpha(tier: Tier, seed: u64) -> Vec<F12> {
 pub fn fq4_alpha(tier: Tier, seed: u64) -> Vec<F12> {
     let p = q();
     let mut v = vec![F12::zero(), F12::one()];
-    let gens = generic(p, seed, 0xf4, 64);
+    let gens = generic(p, seed, 0xf4, tier.pick(64, 1024));
     let mut gi = 0;
     let mut g = || {
         gi += 1;
@@ -215,7 +215,7 @@ pub fn fq4_alpha(tier: Tier, seed: u64) -> Vec<F12> {
             v.push(f);
         }
     }
-    for _ in 0..tier.pick(6, 40) {
+    for _ in 0..tier.pick(6, 80) {
         let mut f = F12::zero();
         for k in 0..4 {
             f.0[3 * k] = g();
@@ -542,7 +542,35 @@ pub fn run(run: &Run) {
         |i| Ok(Tally::new(fq12_unary(&a12[i as usize], true)?, !a12[i as usize].is_zero(), 0)),
         |i| json!({"op": "c17.fq12.unary", "a": jf(&a12[i as usize])}),
     );
-    let emax: u64 = run.tier.pick(256, 4096);
+    if run.tier == Tier::Thorough {
+        // EVERY sparsity pattern: all 4096 elements with coefficients in {0, 1} (shape i = bit mask of the non-zero
+        // coefficients), every unary operation including both final exponentiations, and both orders of the
+        // products with three fixed dense / near-identity partners
+        let shape = |i: u64| F12::from_coeffs(&(0..12).map(|j| if (i >> j) & 1 == 1 { N::one() } else { N::zero() }).collect::<Vec<_>>());
+        run.grid(
+            Spec { name: "c17.fq12.every-01-shape.unary", n: 4096, classes: &[], required: &[] },
+            |i| Ok(Tally::new(fq12_unary(&shape(i), true)?, i > 0, 0)),
+            |i| json!({"op": "c17.fq12.unary", "a": jf(&shape(i))}),
+        );
+        let partners: Vec<F12> = vec![a12[a12.len() - 1].clone(), refmodel::miller(&consts().g1, &consts().g2), {
+            let mut f = F12::one();
+            f.0[2] = n(3);
+            f
+        }];
+        run.grid(
+            Spec { name: "c17.fq12.every-01-shape.pair", n: 4096 * 3, classes: &[], required: &[] },
+            |i| {
+                let (a, b) = (shape(i / 3), &partners[(i % 3) as usize]);
+                let mut k = fq12_pair(&a, b)?;
+                k += fq12_sparse(&a, b)?;
+                k += fq12_pair(b, &a)?;
+                k += fq12_sparse(b, &a)?;
+                Ok(Tally::new(k, i >= 3, 0))
+            },
+            |i| json!({"op": "c17.fq12.pair2", "a": jf(&shape(i / 3)), "b": jf(&partners[(i % 3) as usize])}),
+        );
+    }
+    let emax: u64 = run.tier.pick(256, 16384);
     let four: Vec<F12> = vec![a12[a12.len() - 1].clone(), a12[a12.len() - 2].clone(), F12::monomial(1, &N::one()), F12::from_coeffs(&vec![q() - n(1); 12])];
     run.grid(
         Spec { name: "c17.fq12.pow-every-small-exponent", n: 4 * emax, classes: &[], required: &[] },
@@ -568,11 +596,11 @@ pub fn meta(run: &Run) -> Meta {
                coefficients, unitary, cyclotomic, pairing value, Miller output, generic; thorough: all two-monomial shapes) for mul, add, sub and \
                the sparse mul_015; squared, inverse, Frobenius 1/2/3/6, pow(e) for every exponent of the addition chains plus the paths they \
                never take, both final exponentiations (= x^((q^12-1)/r) by generic exponentiation, None on zero) on every element; EVERY \
-               exponent below the bound on four elements; both Miller loops x both final exponentiations = the reference pairing. \
+               exponent below the bound on four elements; thorough: every one of the 4096 sparsity patterns (coefficients in {0,1}); both Miller loops x both final exponentiations = the reference pairing. \
                Oracle: flat polynomial arithmetic in F_q[w]/(w^12+2)."
             .into(),
         engine: "sm9mc-grid".into(),
-        bounds: json!({"every_exponent_below": run.tier.pick(256, 4096)}),
+        bounds: json!({"every_exponent_below": run.tier.pick(256, 16384), "every_01_shape": run.tier == Tier::Thorough}),
         assumptions: vec![
             "sparse multiplications are only exercised within their stated preconditions; unsupported Frobenius powers (unimplemented!) are not called".into(),
             "needs the add-only hook module behind --cfg john_yu_sm9_core_verif".into(),
@@ -617,6 +645,13 @@ pub fn replay(c: &Value) -> Result<(), Bad> {
             let (a, b) = (gf(&c["a"]), gf(&c["b"]));
             fq12_pair(&a, &b)?;
             fq12_sparse(&a, &b).map(|_| ())
+        }
+        "c17.fq12.pair2" => {
+            let (a, b) = (gf(&c["a"]), gf(&c["b"]));
+            fq12_pair(&a, &b)?;
+            fq12_sparse(&a, &b)?;
+            fq12_pair(&b, &a)?;
+            fq12_sparse(&b, &a).map(|_| ())
         }
         "c17.fq12.unary" => fq12_unary(&gf(&c["a"]), true).map(|_| ()),
         "c17.fq12.smallpow" => fq12_smallpow(&gf(&c["a"]), c["e"].as_u64().unwrap()).map(|_| ()),
